@@ -13,6 +13,8 @@ if ROUND == '5':
     MAP = {'A': 'G', 'B': 'H'}
 if ROUND == '6':
     MAP = {'A': 'I', 'B': 'J'}
+if ROUND == '7':
+    MAP = {'A': 'K', 'B': 'L'}
 for p in sys.argv[1:]:
     notes=open('/tmp/wt/%s/seeded/NOTES.md'%p).read()
     unconfirmed = []
